@@ -60,6 +60,22 @@ def obligations(ctx):
                 else:
                     obs.append(vg.vec_ob(op, var, nn, 1, 1 if op else 0, 1 if op in (3, 4) else 0, (0, 0, 0), avx, tag="own-extent/"))
                     obs.append(vg.vec_ob(op, var, nn, 3, 2 if op else 0, 1 if op in (3, 4) else 0, (0, 0, 0), avx, tag="own-extent/"))
+    # (1'') ... and assign no shared static-lifetime object (SSA write set, as for the DFT-space entry points): every operation at N=4, and the in-place
+    # rotation / automorphism - the forms with an internal temporary - also at N=64 (concrete p), above the small-dimension box (seed C12-h)
+    for (op, var) in vg.PAIRS:
+        if var != 0:
+            continue
+        shapes = [(4, 0, 3)] + ([(4, 1, 3), (64, 1, 5)] if op in (5, 6) else [])
+        for (nn, alias, pp) in shapes:
+            for avx in (0, 1):
+                if op in (5, 6):
+                    o = vg.vec_ob(op, var, nn, 2, 2, 0, (0, 0, 0), avx, alias=alias, pmode=0, p=pp, tag="writeset-vec/")
+                else:
+                    o = vg.vec_ob(op, var, nn, 2, 2 if op else 0, 2 if op in (3, 4) else 0, (0, 0, 0), avx, tag="writeset-vec/")
+                obs.append(core.AlgOb(o.name, vg.H, "h_vecop", "vf.alg.uf:check_shared_writes", params={"marker": "vf_marker", "statics_only": True, "nin": 600},
+                                      defs=o.defs, libs=vg.LIBS, unwind=200, family=o.family + " (write set)", timeout=600, mem_gb=12,
+                                      desc="after the module is built, the coefficient-space call assigns no static-lifetime object other than thread-local "
+                                           "ones (CBMC's SSA assignments of the whole call, unsliced)"))
     # (3) warm-up protocol of the *_simple functions
     obs += [o for o in c15.history_obs(ctx) if "/avx=1" in o.name or "same-dim" in o.name]
     # (4) thread-local caches under call-granularity interleavings of two threads
